@@ -11,7 +11,7 @@ def run(c, a):
                    "repeated on the same operands and across physical representations (Pure, RepInvariant), also on weakened operands. (3) Sharing between "
                    "goroutines: the same calls are executed by 8 goroutines released together on shared operand values in a harness built with the Go race "
                    "detector; TLC requires the concurrent results to equal the sequential result and any race report is a violation. (4) ValueSet/PathSet "
-                   "copy isolation is judged in the C03/C19 state-machine traces (rules C20.SetIsolation, C20.PathSetIsolation), re-run here. "
+                   "copy isolation is judged in the C03/C19 state-machine traces (rules C20.SetIsolation, C20.PathSetIsolation), re-run here. (5) Types: every type of the C07 universe must report the same definition after the type operations ran on it (C20.TypeImmutable). "
                    "Non-trivial = applied mutating step / successful call.")
     c.assumptions = ["documented ownership transfers (NumberVal's *big.Float, Tuple / Object type constructors' slices and maps, AttributeTypes results) are not mutation targets",
                      "the race detector observes the executed pairs of operations; interleavings are not enumerated"]
@@ -61,6 +61,16 @@ def run(c, a):
         c.viol.append({"rule": "C20.DataRace", "event": {"ev": "race", "report": dst, "api": "goroutines"}, "module": "race detector"})
     c.sample_events(rout, 1, lambda l: '"conc"' in l)
     c.trace("ConcTrace", rout)
+    # (5) types: every type of the bounded universe reports the same definition after Equals / TestConformance /
+    #     WithoutOptionalAttributesDeep / JSON round trips ran on it (rule C20.TypeImmutable in C07Trace)
+    gen = c.path("types.ndjson")
+    nt = c.tlc_gen("C07Gen", {"VUNIVERSE": "U2" if thorough else "U1", "VOUT": gen})
+    tev = c.path("type-events.ndjson")
+    c.harness("c07", tev, inp=gen, args=["stride=%d" % (5 if thorough else 40)])
+    before = len(c.viol)
+    c.trace("C07Trace", tev, env={"VGEN": gen}, header=lambda l: '"ev":"tdef"' in l, dedupe=False)
+    c.viol[before:] = [v for v in c.viol[before:] if v["rule"].startswith("C20.")]
+    c.note("types re-read after use", nt)
     # (4) copy isolation of mutable helper sets
     from checks import c03, c19
     import importlib
